@@ -9,6 +9,7 @@ import (
 	"regexp"
 	"runtime"
 	"strings"
+	"sync/atomic"
 	"time"
 
 	"github.com/versity/versitygw/s3api/utils"
@@ -429,7 +430,7 @@ func panicSite() string {
 
 // consume reads rd until it reports an error, with the given buffer schedule.
 // scratch must be at least as large as the largest buffer size used.
-func consume(rd io.Reader, sh *shim, bs *bufSched, scratch []byte, encLen int) (o outcome) {
+func consume(rd io.Reader, sh *shim, bs *bufSched, scratch []byte, encLen int, progress *atomic.Int64) (o outcome) {
 	defer func() {
 		if r := recover(); r != nil {
 			o.panicMsg = normPanic(r)
@@ -451,6 +452,9 @@ func consume(rd io.Reader, sh *shim, bs *bufSched, scratch []byte, encLen int) (
 		p := scratch[:k:k]
 		n, err := rd.Read(p)
 		o.calls++
+		if progress != nil {
+			progress.Add(1)
+		}
 		if n < 0 || n > len(p) {
 			o.panicMsg = "read-count-out-of-range"
 			o.panicSite = "Read"
